@@ -27,6 +27,12 @@ fn gen_list(rng: &mut Rng) -> Vec<&'static str> {
     }
     let n = rng.range(1, 5) as usize;
     pool.truncate(n);
+    // now and then a name is listed twice: the writer is still "named in the list", once
+    if rng.chance(1, 6) {
+        let again = *rng.pick(&pool);
+        let at = rng.usize(pool.len() + 1);
+        pool.insert(at, again);
+    }
     pool
 }
 
